@@ -122,7 +122,20 @@ def gen_world(rng):
             b = dict(desc=None, since=None, deprecated=None, stability=None, attrs=[], skip=False, anns=[])
             blocks.append(('foo_' + n, b, None))
         b['anns'] = [a for a in b['anns']] + [('rename-to', [tgt])]
-    blocks = [(k, b, render_block(k, b, ['x'] if k.startswith('foo_fn') else [])) for k, b, _ in blocks]
+    # a second group: functions that become methods of FooRec0 (their GIR names change when they are paired, after which
+    # rename-to is applied); requests stay inside the group
+    mnames = ['m_%s' % c for c in rng.sample(list('pqrstu'), rng.randint(2, 4))]
+    for i, n in enumerate(mnames):
+        syms.append(S.func('foo_rec0_' + n, S.td('gint'), [S.param('self', S.ptr(S.td('FooRec0'))), S.param('x', S.td('gint'))], line=50 + i))
+    mrenames = []
+    for n in mnames:
+        if rng.random() < 0.5:
+            mrenames.append((n, 'foo_rec0_' + rng.choice([m for m in mnames if m != n])))
+    for n, tgt in mrenames:
+        b = dict(desc=None, since=None, deprecated=None, stability=None, attrs=[], skip=False, anns=[('rename-to', [tgt])])
+        blocks.append(('foo_rec0_' + n, b, None))
+    blocks = [(k, b, render_block(k, b, ['self', 'x'] if k.startswith('foo_rec0_') else ['x'] if k.startswith('foo_fn') else []))
+              for k, b, _ in blocks]
     # records with fields
     for i in range(rng.randint(1, 3)):
         name = 'FooRec%d' % i
@@ -179,7 +192,7 @@ def gen_world(rng):
             b = gen_block(rng, [('emitter', ['emit_it'])])
             blocks.append(('FooObj::%s' % sg, b, render_block('FooObj::%s' % sg, b)))
         elems.append(('ESignal', 'SSignal', 'FooObj', sg, ('signal', 'Obj', sg)))
-    return dict(syms=syms, blocks=blocks, elems=elems, dump=dump, fnames=fnames, renames=renames)
+    return dict(syms=syms, blocks=blocks, elems=elems, dump=dump, fnames=fnames, renames=renames, mnames=mnames, mrenames=mrenames)
 
 
 def find_el(ns, S, finder):
@@ -259,17 +272,22 @@ def main(tier, seed):
                     v = dict(b['anns']).get('value')
                     if v and el.get('value') != v[0]:
                         ck.failing_input('(value) does not override the constant', case, detail=el.attrib)
-        fns = clist(['{| f_name := %s; f_symbol := %s; f_shadows := None; f_shadowed_by := None |}' % (cstr(f), cstr('foo_' + f)) for f in w['fnames']])
+        fns = clist(['{| f_name := %s; f_symbol := %s; f_shadows := None; f_shadowed_by := None |}' % (cstr(f), cstr('foo_' + f)) for f in w['fnames']]
+                    + ['{| f_name := %s; f_symbol := %s; f_shadows := None; f_shadowed_by := None |}' % (cstr(f), cstr('foo_rec0_' + f)) for f in w['mnames']])
         shown = []
         pairs = {}
-        for f in w['fnames']:
-            el = find_el(ns, S, ('function', f))
+        rec0 = find_el(ns, S, ('record', 'Rec0'))
+        methods = {m.get('name'): m for m in (rec0.findall(S.CORE + 'method') if rec0 is not None else [])}
+        for f in w['fnames'] + w['mnames']:
+            el = find_el(ns, S, ('function', f)) if f in w['fnames'] else methods.get(f)
+            if el is None and f in w['mnames']:
+                ck.failing_input('a function taking the structure as first parameter did not become its method', dict(function='foo_rec0_' + f))
             if el is not None:
                 shown.append('(%s, (%s, %s))' % (cstr(f), copt(el.get('shadows'), cstr), copt(el.get('shadowed-by'), cstr)))
                 pairs[f] = (el.get('shadows'), el.get('shadowed-by'))
         # rename-to gives mutually consistent pairs
         for f, (sh, sb) in pairs.items():
-            case = dict(functions=w['fnames'], rename_to=w['renames'])
+            case = dict(functions=w['fnames'], rename_to=w['renames'], methods_of_rec0=w['mnames'], method_rename_to=w['mrenames'])
             if sh is not None and pairs.get(sh, (None, None))[1] != f:
                 ck.failing_input('%s shadows %s but %s is not shadowed-by %s' % (f, sh, sh, f), case, detail=pairs, fid='C03-rename-pair')
             if sb is not None and pairs.get(sb, (None, None))[0] != f:
@@ -278,7 +296,7 @@ def main(tier, seed):
                       kind='renames:%d' % len(w['renames']))
         items.append('{| w_id := %d; w_blocks := %s; w_elems := %s; w_fns := %s; w_renames := %s; w_obs_shown := %s |}'
                      % (len(worlds), clist(['(%s, %s)' % (cstr(k), coq_block(b)) for k, b, _ in w['blocks']]), clist(ecases), fns,
-                        clist(['(%s, %s)' % (cstr(a), cstr(t)) for a, t in w['renames']]), clist(shown)))
+                        clist(['(%s, %s)' % (cstr(a), cstr(t)) for a, t in w['renames'] + w['mrenames']]), clist(shown)))
         worlds.append(w)
     if ck.models_ok and items:
         bad = []
